@@ -172,6 +172,8 @@ PROPS['C14'] = {
         {'name': 'c05', 'src': ['props/c05.c'] + BFS, 'cfgs': ['ring4'], 'args': 'job all ISLX C14'},
         {'name': 'c05', 'src': ['props/c05.c'] + BFS, 'cfgs': ['ring4'], 'args': 'burst all ISLX C14'},
         {'name': 'c05', 'src': ['props/c05.c'] + BFS, 'cfgs': ['ring4'], 'args': 'job 0 ISLC C14'},
+        # descriptor-unaltered check on every job of the entry-point sweep (job / no-check / async burst / synchronous bursts)
+        {'name': 'c09', 'src': ['props/c09.c'] + ALG, 'cfgs': ['std'], 'args': ''},
     ],
     'deadline': {'quick': 900, 'thorough': 3000},
     'assumptions': ['reduced-ring build differs from the shipped one only in the ring size'],
